@@ -6,5 +6,5 @@ CONSTANTS
   MaxFiles = 3
   PoolSel = {1,2,3,4,5,6,7,8,9,10,11,12}
 INVARIANTS TypeOK MeasureNat TempIsStack EmittedOnce TemporariesEmpty TopoOrder CycleReported OrderIndependent FixedPointScoped
-PROPERTIES Progress
+PROPERTIES Progress Termination
 CHECK_DEADLOCK FALSE
